@@ -41,4 +41,8 @@ def run_property(prop: str, project: Project, tier: str) -> R.Report:
     except AnalysisError as e:
         rep = _run_view(prop, project.raw_view(), tier)
         rep.notes.append(f"the reading with new helpers inlined was undecided ({e}); verdict from the sources as written")
+        import os
+
+        if os.environ.get("SA_RAW_VIEW_MAY_ALARM", "1") == "0" and rep.findings() and R.classify(rep)[1]:
+            raise AnalysisError(f"{e} (and the sources as written, where the new helpers are opaque calls, would be flagged: {str(R.classify(rep)[1][0])[:120]})")
         return rep
